@@ -124,3 +124,94 @@ def names_module(E, derives=("Display", "AsRefStr", "IntoStaticStr", "VariantNam
         body.append('    o.line(&format!("{{\\"op\\":\\"vnames\\",\\"def\\":%d,\\"names\\":{}}}", jstrs(<%s as strum::VariantNames>::VARIANTS)));' % (did, D.inst(E)))
     src += ("pub fn run(o: &mut Out, ins: &std::collections::HashMap<u32, Vec<String>>, seed: u64) {\n%s\n}\n" % "\n".join(body))
     return src
+
+
+# --------------------------------------------------------------------------- Display formatting (C17) / forwarding (C11)
+def _ev_panic(did, k):
+    return ('        match r { Ok(()) => {}, Err(p) => o.line(&format!("{{\\"op\\":\\"panic\\",\\"def\\":%d,\\"i\\":%d,\\"msg\\":{}}}", jcps(&p))) }'
+            % (did, k))
+
+
+def display_module(E, facts, derives=("Display",)):
+    """fixed names under the spec grid; interpolating literals next to a hand-written format!"""
+    src = HEADER + D.print_enum(E, list(derives)) + "\n"
+    did = E["id"]
+    body = []
+    for i, v in enumerate(E["variants"]):
+        k = i + 1
+        if v["dis"] or v["transp"] or v["def"]:
+            continue
+        if facts["interp"][i]:
+            for vs in v.get("vals") or [[D._fval(E, f, 1) for f in v["fields"]], [D._fval(E, f, 2) for f in v["fields"]]]:
+                blk = ["    {", "        let r = catch(|| {"]
+                for n, ex in enumerate(vs):
+                    blk.append("            let v%d = %s;" % (n, ex))
+                blk.append("            let x = %s;" % D.ctor(E, v, vals=["v%d.clone()" % n for n in range(len(vs))]))
+                blk.append('            let obs = format!("{}", x);')
+                lit = D.rs_str((E["prefix"][0] if E["prefix"] else []) + v["ts"][0])
+                if v["kind"] == "tuple":
+                    args = ", ".join("v%d" % n for n in range(len(vs)))
+                else:
+                    used = sorted({p["f"] for p in v["ph"]})
+                    args = ", ".join("%s = v%d" % (v["fields"][f - 1]["name"], f - 1) for f in used)
+                blk.append("            let std = format!(%s, %s);" % (lit, args))
+                frs = []
+                seen = set()
+                for p in v["ph"]:
+                    key = (p["f"], p["spec"])
+                    if key in seen:
+                        continue
+                    seen.add(key)
+                    fl = "{:%s}" % p["spec"] if p["spec"] else "{}"
+                    frs.append('format!("{{\\"f\\":%d,\\"spec\\":{},\\"out\\":{}}}", jcps(%s), jcps(&format!("%s", v%d)))'
+                               % (p["f"], D.rs_str([ord(c) for c in p["spec"]]), fl, p["f"] - 1))
+                blk.append("            let fr: Vec<String> = vec![%s];" % ", ".join(frs))
+                blk.append('            o.line(&format!("{{\\"op\\":\\"interp\\",\\"def\\":%d,\\"i\\":%d,\\"obs\\":{},\\"std\\":{},\\"fr\\":{}}}", jcps(&obs), jcps(&std), jlist(&fr)));' % (did, k))
+                blk.append("        });")
+                blk.append(_ev_panic(did, k))
+                blk.append("    }")
+                body += blk
+        else:
+            body += ["    {", "        let r = catch(|| {", "            let x = %s;" % D.ctor(E, v, 1),
+                     "            fmt_event(o, %d, %d, &x);" % (did, k), "        });", _ev_panic(did, k), "    }"]
+    src += ("pub fn run(o: &mut Out, ins: &std::collections::HashMap<u32, Vec<String>>, seed: u64) {\n%s\n}\n" % "\n".join(body))
+    return src
+
+
+def forward_module(E, with_parse=True):
+    """default / transparent variants next to their inner value"""
+    has_tr = any(v["transp"] for v in E["variants"])
+    ds = ["Display"] + (["AsRefStr"] if E.get("fwd_asref") else []) + (["IntoStaticStr"] if E.get("fwd_into") else [])
+    if with_parse:
+        ds.append("EnumString")
+    src = HEADER + D.print_enum(E, ds) + "\n"
+    if with_parse:
+        src += probe_impl(E)
+    did = E["id"]
+    err = "UserErr" if E["perr"] else "strum::ParseError"
+    body = []
+    for i, v in enumerate(E["variants"]):
+        k = i + 1
+        if v["dis"] or not (v["transp"] or (v["def"] and not v["ts"])):
+            continue
+        f0 = v["fields"][0]
+        for which in (1, 2):
+            inner = v.get("inner_vals", [None, None])[which - 1] or D._fval(E, f0, which)
+            blk = ["    {", "        let r = catch(|| {", "            let inner = %s;" % inner,
+                   "            let x = %s;" % D.ctor(E, v, vals=["inner.clone()"]),
+                   "            fwd_event(o, %d, %d, &x, &inner);" % (did, k)]
+            if v["transp"] and E.get("fwd_asref"):
+                blk.append('            fwd_str_event(o, %d, %d, "as_ref", AsRef::<str>::as_ref(&x), AsRef::<str>::as_ref(&inner));' % (did, k))
+            if v["transp"] and E.get("fwd_into"):
+                blk.append("            { let a: &'static str = (&x).into(); let b: &'static str = inner.into(); let c: &'static str = x.clone().into();")
+                blk.append('              fwd_str_event(o, %d, %d, "into_ref", a, b); fwd_str_event(o, %d, %d, "into_val", c, b); }' % (did, k, did, k))
+            blk += ["        });", _ev_panic(did, k), "    }"]
+            body += blk
+    if with_parse:
+        body.append("    let empty: Vec<String> = Vec::new();")
+        body.append("    let xs = ins.get(&%d).unwrap_or(&empty);" % did)
+        body.append("    parse_batch::<%s, %s>(o, %d, xs);" % (D.inst(E), err, did))
+        if any(v["def"] and not v["dis"] for v in E["variants"]):
+            body.append("    capture_batch::<%s, %s>(o, %d, xs);" % (D.inst(E), err, did))
+    src += ("pub fn run(o: &mut Out, ins: &std::collections::HashMap<u32, Vec<String>>, seed: u64) {\n%s\n}\n" % "\n".join(body))
+    return src
